@@ -63,6 +63,8 @@ def sessions(emb):
         'short-program': var(routes=[{'symbol': 'BTC-USDT', 'timeframe': '1m', 'spec': spec(tick, unit, side='short', enter={'when': 'flat', 'legs': [[2, 1]]})}]),
         'two-routes': var(routes=[{'symbol': 'BTC-USDT', 'timeframe': '1m', 'spec': spec(tick, unit)}, {'symbol': 'ETH-USDT', 'timeframe': '1m', 'spec': spec(tick, unit, side='short', enter={'when': 'flat', 'legs': [[1, 1]]})}],
                           candles={'BTC-USDT': rows, 'ETH-USDT': rows}),
+        # explicit hyperparameters that name only one of the two parameters the strategy declares
+        'partial-hyperparameters': var(hyperparameters={'vf_a': 7}, routes=[{'symbol': 'BTC-USDT', 'timeframe': '1m', 'spec': spec(tick, unit, declare_hp=True)}]),
         # faults: these sessions abort part-way through
         'raise-at-open': var(routes=[{'symbol': 'BTC-USDT', 'timeframe': '1m', 'spec': spec(tick, unit, **{'raise': 'on_open_position'})}]),
         'raise-mid': var(routes=[{'symbol': 'BTC-USDT', 'timeframe': '1m', 'spec': spec(tick, unit, enter={'when': {'at': [0]}, 'legs': [[1, 0]]}, on_open={'sl': 'all', 'tp': 'all', 'sl_d': 30, 'tp_d': 30}, **{'raise': {'at': 6}})}]),
@@ -99,7 +101,7 @@ def _args_unchanged(keep):
         if isinstance(x, (list, tuple)):
             return len(x) == len(y) and all(eq(a, c) for a, c in zip(x, y))
         return x == y
-    names = ['config', 'routes', 'data_routes', 'candles', 'warmup_candles']
+    names = ['config', 'routes', 'data_routes', 'candles', 'warmup_candles', 'hyperparameters']
     out = []
     for nm, x, y in zip(names, b, live):
         if nm == 'routes':
